@@ -443,6 +443,10 @@ class GridFlow(WidgetWrap[Pile], WidgetContainerMixin, WidgetContainerListConten
         # pad.first_position was set by generate_display_widget() above
         self.focus_position = pile_focus.first_position + col_focus_position
 
+    def selectable(self) -> bool:
+        """Selectable exactly when one of the cells is (the display widget may be out of date)."""
+        return any(w.selectable() for w, _options in self.contents)
+
     def keypress(
         self,
         size: tuple[int] | tuple[()],  # type: ignore[override]
@@ -452,6 +456,8 @@ class GridFlow(WidgetWrap[Pile], WidgetContainerMixin, WidgetContainerListConten
         Pass keypress to display widget for handling.
         Captures focus changes.
         """
+        if not self.contents:
+            return key
         self.get_display_widget(size)
 
         if (key := super().keypress(size, key)) is not None:
@@ -485,13 +491,17 @@ class GridFlow(WidgetWrap[Pile], WidgetContainerMixin, WidgetContainerListConten
         self.get_display_widget(size)
         return super().render(size, focus)
 
-    def get_cursor_coords(self, size: tuple[int] | tuple[()]) -> tuple[int, int]:
+    def get_cursor_coords(self, size: tuple[int] | tuple[()]) -> tuple[int, int] | None:
         """Get cursor from display widget."""
+        if not self.contents:
+            return None
         self.get_display_widget(size)
         return super().get_cursor_coords(size)
 
     def move_cursor_to_coords(self, size: tuple[int] | tuple[()], col: int, row: int):
         """Set the widget in focus based on the col + row."""
+        if not self.contents:
+            return False
         self.get_display_widget(size)
         rval = super().move_cursor_to_coords(size, col, row)
         self._set_focus_from_display_widget()
@@ -505,7 +515,9 @@ class GridFlow(WidgetWrap[Pile], WidgetContainerMixin, WidgetContainerListConten
         col: int,
         row: int,
         focus: bool,
-    ) -> Literal[True]:
+    ) -> bool:
+        if not self.contents:
+            return False
         self.get_display_widget(size)
         super().mouse_event(size, event, button, col, row, focus)
         self._set_focus_from_display_widget()
@@ -513,5 +525,7 @@ class GridFlow(WidgetWrap[Pile], WidgetContainerMixin, WidgetContainerListConten
 
     def get_pref_col(self, size: tuple[int] | tuple[()]):
         """Return pref col from display widget."""
+        if not self.contents:
+            return 0
         self.get_display_widget(size)
         return super().get_pref_col(size)
